@@ -6,11 +6,13 @@ import Sftp.Model.Pipe
   c14.check <cfg> <trace>  replay a schedule, evaluate the close barrier condition after every step
   c14.handled <cfg> <trace> replay a schedule, print the order ids in the order their handlers returned
 
-  <cfg>   = PPP-FFFFF-W
+  <cfg>   = PPP-FFFFF-W  or  PPP-FFFFF-W-D
             PPP   three 0/1 chars: READ/WRITE, CLOSE, other kinds are sent to the rw pool (today 100)
             FFFFF five 0/1 chars: closeWaits, registerBeforeHandoff, headMatch, sortIncoming, sortOutgoing
                   (today 11111)
             W     decimal pool size (today 8)
+            D     optional: `1` (or the letter `D`) = drainOnFini, the controller drains both channels and sends
+                  before it returns on fini (today, after the repair of F5); `0` or absent = pinned behaviour
   <trace> = `-` (empty) or comma-separated action tokens
             r<id><k>  recv, request id <id> (decimal), kind <k> = w (READ/WRITE) | c (CLOSE) | o (other)
             d         dispatch
@@ -41,15 +43,25 @@ def bit? : Char → Option Bool
   | '1' => some true
   | _ => none
 
+/-- `W` or `W-D` -/
+def parseTail (cs : List Char) : Option (Nat × Bool) :=
+  match cs.span (· != '-') with
+  | (w, []) => (natOfDigits w).map (·, false)
+  | (w, ['-', d]) =>
+    match natOfDigits w, (if d == 'D' then some true else bit? d) with
+    | some w, some d => some (w, d)
+    | _, _ => none
+  | _ => none
+
 def parseCfg (t : String) : Option PipeCfg :=
   match t.toList with
   | p1 :: p2 :: p3 :: '-' :: f1 :: f2 :: f3 :: f4 :: f5 :: '-' :: w =>
-    match bit? p1, bit? p2, bit? p3, bit? f1, bit? f2, bit? f3, bit? f4, bit? f5, natOfDigits w with
-    | some p1, some p2, some p3, some f1, some f2, some f3, some f4, some f5, some w =>
+    match bit? p1, bit? p2, bit? p3, bit? f1, bit? f2, bit? f3, bit? f4, bit? f5, parseTail w with
+    | some p1, some p2, some p3, some f1, some f2, some f3, some f4, some f5, some (w, d) =>
       some { poolKinds := (if p1 then [ReqKind.rw] else []) ++ (if p2 then [ReqKind.close] else []) ++
                           (if p3 then [ReqKind.cmd] else []),
              closeWaits := f1, registerBeforeHandoff := f2, headMatch := f3, sortIncoming := f4,
-             sortOutgoing := f5, workers := w }
+             sortOutgoing := f5, workers := w, drainOnFini := d }
     | _, _, _, _, _, _, _, _, _ => none
   | _ => none
 
